@@ -113,6 +113,10 @@ enum {
   MYTH_VP_TIMEDJOIN_TRY = 2002   /* a tryjoin attempt of myth_timedjoin_body; a = target, v = 0 (joined) / 1 (busy) */
 };
 
+/* sleep queue: reported inside the critical section, i.e. at the linearization point;
+   a = queue, b = item enqueued / dequeued (0 = found empty) */
+enum { MYTH_VP_SQ_ENQ = 130, MYTH_VP_SQ_DEQ = 131 };
+
 /* spin lock, fences and work-stealing queue points (C02) */
 enum {
   /* spin lock (myth_spinlock_func.h): a = lock */
